@@ -67,10 +67,14 @@ REQUIRED = {
         "class:static_hyper": 4, "class:static_axisym": 2, "class:static_pp": 4, "class:multi_hyper": 3,
         "class:dynamics": 4, "class:static_j2": 2, "class:static_visco": 1, "class:multi_j2": 1,
         "class:repeated_stretch": 1, "repeated_stretch_controls": 2,
+        "class:multi_mixed": 3, "cmp:multi_mixed": 20, "mixed_material_configs": 3,
+        "declaration_metamorphic_checks": 150, "bc_decl:overlap": 20, "bc_decl:duplicate_entry": 20, "bc_decl:repeated_members": 20,
+        "bc_decl:subset_superset": 20, "bc_decl:empty_sets": 10,
     },
     "quick": {},
     "thorough": {"stiffness_comparisons": 3300, "multi_state_checks": 6, "class:multi_j2": 2, "class:multi_visco": 1,
-                 "class:dynamics_j2": 1, "cmp:visco": 40, "cmp:j2": 100, "mat:visco3": 1},
+                 "class:dynamics_j2": 1, "cmp:visco": 40, "cmp:j2": 100, "mat:visco3": 1,
+                 "class:multi_mixed": 14, "cmp:multi_mixed": 200, "declaration_metamorphic_checks": 3000},
 }
 WATCHDOG_S = {"quick": 2400, "thorough": 5 * 3600}
 MAX_VACUOUS_FRACTION = 0.1
@@ -92,6 +96,19 @@ def build_cases(tier, seed):
         c["seed"] = derive_seed(seed, PROPERTY, cls, i, "run")
         c["group"] = "%s%d" % (cls, i)
         cases.append(c)
+
+    def add_mixed(i, names, order, meshkind, pp=None, draws=2, nbc=4, direct=False):
+        """multi-block factory with a different material per block (different models and/or same model, other constants)"""
+        first = names[0]
+        kw = dict(j2=(first[1], first[2], first[3]), matname=None) if isinstance(first, (tuple, list)) else dict(matname=first)
+        add("multi_mixed", i, factory="multi", mode="plane strain", pp=pp, order=order, meshkind=meshkind, nblocks=len(names),
+            draws=draws, nbc=nbc, direct=direct, **kw)
+        c = cases[-1]
+        c["materials"] = cfg.mixed_materials(rng_of(derive_seed(seed, PROPERTY, "multi_mixed", i, "materials")), names)
+        c["material"] = c["materials"][0]
+        c["cost"] = cfg.mixed_cost(c["materials"]) * (1.3 if order >= 3 else 1.0)
+        if any(cfg.is_path_dependent(m) for m in c["materials"]):
+            c["hist_steps"] = 2
 
     kinds = ["delaunay", "graded", "hole", "structured", "aniso", "shear"]
     if tier == "quick":
@@ -127,6 +144,10 @@ def build_cases(tier, seed):
                 meshkind=k, draws=dr, nbc=nb, direct=False)
         add("static_visco", 0, factory="static", matname="visco1", mode="plane strain", pp=None, order=1, meshkind="delaunay",
             draws=dr, nbc=nb, direct=False)
+        # different materials per block (first sentence of the property for the multi-block factory)
+        add_mixed(0, ["neo_adagio", "neo_adagio"], 2, "delaunay")
+        add_mixed(1, ["gent", "lin_gl", "neo_coupled"], 1, "graded", direct=True)
+        add_mixed(2, ["neo_adagio", "lin_linear", "gent", "neo_adagio"], 2, "hole", pp=1)
         # internal-variable update under block splitting: one cheap path-dependent multi-block configuration
         add("multi_j2", 0, factory="multi", matname=None, j2=("small", "linear", False), mode="plane strain", pp=None, order=1,
             meshkind="delaunay", nblocks=2, draws=dr, nbc=nb, direct=False, hist_steps=2)
@@ -199,6 +220,15 @@ def build_cases(tier, seed):
         draws=3, nbc=4, direct=False)
     add("multi_axisym_declined", 0, factory="multi", matname="neo_adagio", mode="axisymmetric", pp=None, order=1,
         meshkind="structured", nblocks=2, draws=1, nbc=2)
+    J2S = ("j2", "small", "linear", False)
+    mixes = [(["neo_adagio", "neo_adagio"], 1, None), (["gent", "gent", "gent"], 2, None), (["lin_gl", "neo_coupled"], 3, None),
+             (["neo_adagio", "lin_linear", "gent", "neo_coupled"], 2, 0), (["lin_linear", "lin_linear"], 4, None),
+             (["lin_log", "neo_adagio"], 1, None), (["neo_coupled", "gent", "lin_gl"], 2, 1), (["lin_gl", "lin_gl", "neo_adagio", "neo_adagio"], 1, None),
+             ([J2S, "neo_adagio"], 1, None), ([J2S, ("j2", "small", "voce", False)], 1, None), (["visco1", "gent"], 1, None),
+             ([("j2", "small", "power law", True), "lin_linear", "neo_coupled"], 1, None), ([J2S, "visco1"], 1, None),
+             ([("j2", "large", "linear", False), "lin_gl"], 1, None), (["visco1", "visco1"], 1, None), ([J2S, J2S, "gent"], 2, None)]
+    for i, (names, o, pp_) in enumerate(mixes):
+        add_mixed(i, names, o, kinds[i % 6], pp=pp_, draws=3, nbc=nb, direct=(i % 4 == 1))
     plan = [("lin_log", None, "plane strain", 1), ("lin_log", None, "axisymmetric", 2), (None, ("large", "voce", False), "plane strain", 1),
             ("visco1", None, "plane strain", 1)]
     for i, (m, j2, mode, o) in enumerate(plan):
@@ -261,6 +291,49 @@ def _bc_masks(rng, nN, nbc):
             m[0, 0] = True
         out.append(("random", m))
     return out
+
+
+DECL_KINDS = ["overlap", "duplicate_entry", "repeated_members", "subset_superset"]
+
+
+def _alt_declaration(rng, m, kind, prefix):
+    """A second, different declaration of the SAME (node, component) subset m: returns (nodeSets, [(setName, component)], kind).
+    overlap: two node sets per component that share members; duplicate_entry: the same EssentialBC listed twice;
+    repeated_members: node sets that list nodes more than once (shuffled); subset_superset: a strict subset plus the full set."""
+    sets, ebcs = {}, []
+    used = kind
+    for comp, tag in ((0, "x"), (1, "y")):
+        nodes = onp.flatnonzero(m[:, comp])
+        if nodes.size == 0:
+            if kind == "empty_sets":
+                sets[prefix + tag] = nodes
+                ebcs.append((prefix + tag, comp))
+            continue
+        k = kind
+        if k in ("overlap", "subset_superset") and nodes.size < 2:
+            k = "duplicate_entry"
+        if k == "overlap":
+            perm = rng.permutation(nodes)
+            cut = int(rng.integers(1, nodes.size))
+            extra = int(rng.integers(1, max(2, nodes.size // 3 + 1)))
+            a = perm[:min(nodes.size, cut + extra)]
+            b = perm[max(0, cut - extra):]
+            sets[prefix + tag + "a"], sets[prefix + tag + "b"] = a, b
+            ebcs += [(prefix + tag + "a", comp), (prefix + tag + "b", comp)]
+        elif k == "subset_superset":
+            sub = rng.permutation(nodes)[:int(rng.integers(1, nodes.size))]
+            sets[prefix + tag + "s"], sets[prefix + tag + "f"] = sub, rng.permutation(nodes)
+            pair = [(prefix + tag + "s", comp), (prefix + tag + "f", comp)]
+            ebcs += pair if rng.random() < 0.5 else pair[::-1]
+        elif k == "repeated_members":
+            rpt = rng.choice(nodes, size=int(rng.integers(1, nodes.size + 1)), replace=True)
+            sets[prefix + tag] = rng.permutation(onp.concatenate([nodes, rpt]))
+            ebcs.append((prefix + tag, comp))
+        else:  # duplicate_entry (also the fallback)
+            sets[prefix + tag] = nodes
+            ebcs += [(prefix + tag, comp)] * int(rng.integers(2, 4))
+    order = rng.permutation(len(ebcs))
+    return sets, [ebcs[i] for i in order], used
 
 
 def _raw_field(rng, X, h, order):
@@ -370,12 +443,18 @@ def run_case(case):
     rng = rng_of(case["seed"])
     mat_spec = case["material"]
     mname = mat_spec["name"]
+    mixed = case.get("materials")            # multi-block with a different material per block (list of specs, one per block)
+    specs = list(mixed) if mixed else [mat_spec]
+    if mixed:
+        mname = "mixed"
+    has_j2 = any(s_["name"].startswith("j2") for s_ in specs)
+    has_visco = any(s_["name"].startswith("visco") for s_ in specs)
     factory = case["factory"]
     mode = case["mode"]
     axisym = mode == "axisymmetric"
     pp = case["pp"]
     order = case["mesh"]["order"]
-    pathdep = cfg.is_path_dependent(mat_spec)
+    pathdep = any(cfg.is_path_dependent(s_) for s_ in specs)
     dyn = factory == "dynamics"
     draws, nbc = int(case["draws"]), int(case["nbc"])
 
@@ -393,12 +472,21 @@ def run_case(case):
         return res
     bc_sets = []
     nodeSets = {}
+    ndecl = 0
     for d in range(draws):
         for b, (kind, m) in enumerate(_bc_masks(rng, nN, nbc)):
             nm = "d%db%d" % (d, b)
             nodeSets[nm + "x"] = onp.flatnonzero(m[:, 0])
             nodeSets[nm + "y"] = onp.flatnonzero(m[:, 1])
-            bc_sets.append((d, nm, kind, m))
+            # a second declaration of the same constrained subset (overlapping sets, duplicated entries, repeated members, ...)
+            if kind == "empty":
+                akind = "empty_sets"
+            else:
+                akind = DECL_KINDS[ndecl % len(DECL_KINDS)]
+                ndecl += 1
+            asets, aebcs, akind = _alt_declaration(rng, m, akind, nm + "alt")
+            nodeSets.update(asets)
+            bc_sets.append((d, nm, kind, m, akind, aebcs))
     mesh = meshes.with_nodesets(mesh, nodeSets)
     blocks = None
     if factory == "multi":
@@ -418,10 +506,15 @@ def run_case(case):
         res.inconclusive("function space volumes not finite/positive")
         return res
 
-    for key in ("factory:" + factory, "mode:" + mode, "pp:%s" % pp, "mat:" + mname, "order:%d" % order,
+    for key in ("factory:" + factory, "mode:" + mode, "pp:%s" % pp, "order:%d" % order,
                 "meshkind:" + ("delaunay" if case["meshkind"] in ("delaunay", "aniso", "shear") else case["meshkind"]),
                 "meshkind_detail:" + case["meshkind"], "quad_degree:%d" % case["quad"]):
         res.count(key)
+    for s_ in specs:
+        res.count("mat:" + s_["name"])
+    if mixed:
+        res.count("mixed_material_configs")
+        res.count("mixed:" + "+".join(sorted(set(s_["name"] for s_ in specs))))
     if case.get("low_quad"):
         res.count("low_quad_configs")
     if case["mesh"].get("bubble"):
@@ -432,12 +525,19 @@ def run_case(case):
     import io
     with contextlib.redirect_stdout(io.StringIO()):
         mat = cfg.build_material(mat_spec)
+        mats = [cfg.build_material(s_) for s_ in specs] if mixed else None
+    block_spec = {}
+    if mixed:
+        # block names (sorted) <-> material list; the dictionary handed to the factory keeps the partition's random key order
+        block_spec = {name: k for k, name in enumerate(sorted(blocks))}
     F1 = None
     try:
         if factory == "static":
             F = _lib(res, "create_mechanics_functions", Mechanics.create_mechanics_functions, fs, mode, mat, pressureProjectionDegree=pp)
         elif factory == "multi":
-            models = {k: mat for k in blocks}
+            models = {k: (mats[block_spec[k]] if mixed else mat) for k in blocks}
+            if mixed and rng.random() < 0.5:
+                models = dict(reversed(list(models.items())))   # dictionary order is independent of the mesh's block order
             try:
                 F = _lib(res, "create_multi_block_mechanics_functions", Mechanics.create_multi_block_mechanics_functions, fs, mode, models,
                          pressureProjectionDegree=pp)
@@ -445,7 +545,8 @@ def run_case(case):
                 res.count("multi_axisym_declined")
                 res.vacuous("create_multi_block_mechanics_functions explicitly raises NotImplementedError for mode2D=%r" % mode)
                 return res
-            F1 = _lib(res, "create_mechanics_functions", Mechanics.create_mechanics_functions, fs, mode, mat, pressureProjectionDegree=pp)
+            if not mixed:
+                F1 = _lib(res, "create_mechanics_functions", Mechanics.create_mechanics_functions, fs, mode, mat, pressureProjectionDegree=pp)
         else:
             newmark = Mechanics.NewmarkParameters(gamma=case["gamma"], beta=case["beta"])
             F = _lib(res, "create_dynamics_functions", Mechanics.create_dynamics_functions, fs, mode, mat, newmark, pressureProjectionDegree=pp)
@@ -479,16 +580,46 @@ def run_case(case):
     E, nu = mat_spec["E"], mat_spec["nu"]
     tau_ref = None
     evolved_pts = 0
+    block_ids = {name: onp.asarray(ids) for name, ids in blocks.items()} if blocks else {}
+
+    def _elems_of(pred):
+        """element ids carrying a material that satisfies pred (all elements for single-material configurations)."""
+        if not mixed:
+            return onp.arange(nE) if pred(mat_spec) else onp.zeros(0, int)
+        sel = [block_ids[name] for name, k in block_spec.items() if pred(specs[k])]
+        return onp.sort(onp.concatenate(sel)) if sel else onp.zeros(0, int)
+
+    j2_elems = _elems_of(lambda s_: s_["name"].startswith("j2"))
+
+    def _min_gap(Ufield, state):
+        """smallest relative elastic-stretch gap over the quadrature points of all blocks whose model takes a tensor logarithm"""
+        worst = onp.inf
+        for k, s_ in enumerate(specs):
+            if s_["name"] not in EIGEN_MODELS:
+                continue
+            ids = onp.arange(nE) if not mixed else block_ids[[n_ for n_, kk in block_spec.items() if kk == k][0]]
+            sa_ = onp.asarray(state)[ids]
+            width = {"lin_log": 0, "j2_large": 10, "visco1": 9, "visco3": 27}[s_["name"]]
+            worst = min(worst, ref.min_relative_eigen_gap(Ufield, X, geo["conns"][ids], geo["shapes"][ids], geo["shapeGrads"][ids],
+                                                           geo["vols"][ids], axisym, pshapes,
+                                                           _inelastic_distortions(s_["name"], sa_[..., :width])))
+        return worst
+
     if pathdep:
-        if mname.startswith("j2"):
-            eps_y = mat_spec["Y0"] / E
-            tau_ref = 1.0 / mat_spec["rate"]["epsDot0"] * eps_y if mat_spec.get("rate") else 1.0
+        j2s = [s_ for s_ in specs if s_["name"].startswith("j2")]
+        vis = [s_ for s_ in specs if s_["name"].startswith("visco")]
+        if has_j2:
+            eps_y = min(s_["Y0"] / s_["E"] for s_ in j2s)
+        if has_visco:
+            tau_ref = float(onp.exp(onp.mean(onp.log(onp.concatenate([s_["tau"] for s_ in vis])))))
         else:
-            tau_ref = float(onp.exp(onp.mean(onp.log(mat_spec["tau"]))))
+            rated = [s_ for s_ in j2s if s_.get("rate")]
+            tau_ref = (rated[0]["Y0"] / rated[0]["E"]) / rated[0]["rate"]["epsDot0"] if rated else 1.0
+        st_init = onp.asarray(st)
         nsteps = int(case.get("hist_steps", 2))
         try:
             for k in range(nsteps):
-                if mname.startswith("j2"):
+                if has_j2:
                     target = min(0.22, eps_y * cfg.loguniform(rng, 0.8, 8.0) * (k + 1) / nsteps + 0.5 * eps_y)
                 else:
                     target = rng.uniform(0.05, 0.2)
@@ -520,7 +651,9 @@ def run_case(case):
             # a NaN internal state is a material-update matter (C09/C11), not an admissible internal state for C02
             res.vacuous("history produced a non-finite internal state")
             return res
-        if mname.startswith("j2"):
+        if mixed:
+            evolved_pts = int((onp.abs(sa - st_init).max(axis=-1) > 1e-9).sum())
+        elif mname.startswith("j2"):
             evolved_pts = int((sa[..., 0] > 0).sum())
         else:
             evolved_pts = int((onp.abs(sa.reshape(sa.shape[0], sa.shape[1], -1, 9)[..., :] - onp.eye(3).ravel()).max(axis=(-1, -2)) > 1e-6).sum())
@@ -534,14 +667,14 @@ def run_case(case):
                                                    density=mat_spec.get("density") if dyn else None)
 
     # ---------------------------------------------------------------- draws
-    uses_eigen = mname in EIGEN_MODELS
+    uses_eigen = any(s_["name"] in EIGEN_MODELS for s_ in specs)
     special = case.get("special")
     if dyn:
         rho = mat_spec["density"]
         dt_star = 0.6 * geo["h"] / order * math.sqrt(rho / E)
     did_direct = False
     for d in range(draws):
-        if mname.startswith("j2"):
+        if has_j2:
             target = min(0.22, eps_y * cfg.loguniform(rng, 0.7, 10.0))
         elif mname == "lin_linear":
             target = cfg.loguniform(rng, 1e-3, 0.2)
@@ -553,8 +686,7 @@ def run_case(case):
                 U, label = _prescribed_state(d, X, rng)
                 _, dinfo = _strain_level(U, geo, axisym)
                 dinfo["minJ_used"] = dinfo["minJ3"] if axisym else dinfo["minJ"]
-                gap = ref.min_relative_eigen_gap(U, X, geo["conns"], geo["shapes"], geo["shapeGrads"], geo["vols"], axisym, pshapes,
-                                                 _inelastic_distortions(mname, st))
+                gap = _min_gap(U, st)
                 # structural classifier of open finding D12 as seen through C02: dedicated input class AND eigenvector-based
                 # log-strain model AND harness-measured relative stretch gap < 1e-8 AND not the reference state
                 if uses_eigen and gap < 1e-8 and bool(onp.any(U != 0.0)) and dinfo["minJ_used"] > MIN_DETF:
@@ -570,8 +702,7 @@ def run_case(case):
             U, dinfo = _scaled_field(rng, geo, target, axisym, pshapes)
             if U is None or not uses_eigen:
                 break
-            gap = ref.min_relative_eigen_gap(U, X, geo["conns"], geo["shapes"], geo["shapeGrads"], geo["vols"], axisym, pshapes,
-                                             _inelastic_distortions(mname, st))
+            gap = _min_gap(U, st)
             if gap >= MIN_EIGEN_GAP:
                 res.ratio("hypothesis_eigen_gap(allowed/observed)", MIN_EIGEN_GAP, gap)
                 break
@@ -612,14 +743,14 @@ def run_case(case):
         hs = float(onp.max(onp.abs(H)))
 
         plastic_now = None
-        if mname.startswith("j2"):
+        if has_j2:
             try:
                 stn = onp.asarray(_lib(res, "compute_updated_internal_variables", F.compute_updated_internal_variables, Uj, st, dt))
             except _LibraryRaised:
                 return res
-            plastic_now = int((stn[..., 0] > onp.asarray(st)[..., 0]).sum())
+            plastic_now = int((stn[j2_elems][..., 0] > onp.asarray(st)[j2_elems][..., 0]).sum())
             res.count("plastic_points_at_evaluation", plastic_now)
-            res.count("elastic_points_at_evaluation", stn.shape[0] * stn.shape[1] - plastic_now)
+            res.count("elastic_points_at_evaluation", j2_elems.size * stn.shape[1] - plastic_now)
 
         # ---- multi-block transparency
         if F1 is not None:
@@ -638,7 +769,7 @@ def run_case(case):
                 res.count("multi_stiffness_checks")
 
         # ---- assembled K vs Hessian for every BC subset of this draw
-        for (dd, nm, kind, m) in bc_sets:
+        for (dd, nm, kind, m, akind, aebcs) in bc_sets:
             if dd != d:
                 continue
             ebcs = []
@@ -678,6 +809,26 @@ def run_case(case):
                       {"bc": kind, "factory": factory, "material": mname}, mech)
             if mech is not None:
                 res.count("comparisons_at_repeated_stretches")
+            # ---- the same constrained subset declared a second, different way: identical K, and K == H again
+            try:
+                dm2 = _lib(res, "DofManager(alternative declaration)", FunctionSpace.DofManager, fs, 2,
+                           [FunctionSpace.EssentialBC(nodeSet=n_, component=c_) for n_, c_ in aebcs])
+                same_mask = onp.array_equal(onp.asarray(dm2.isBc), m)
+                res.expect("declaration_same_mask", same_mask, {"bc": kind, "declaration": akind})
+                if same_mask:
+                    K2 = onp.asarray(_lib(res, "assemble_sparse_stiffness_matrix(alternative declaration)",
+                                          SparseMatrixAssembler.assemble_sparse_stiffness_matrix, Ke, mesh.conns, dm2).toarray())
+                    if K2.shape != K.shape:
+                        res.violate("declaration_metamorphic_shape", {"K": list(K.shape), "K2": list(K2.shape), "declaration": akind}, None)
+                    else:
+                        res.bound("declaration_metamorphic_K_identical", float(onp.max(onp.abs(K2 - K))), 1e-14 * max(scale, EPS),
+                                  {"bc": kind, "declaration": akind, "n_entries": len(aebcs)}, None)
+                        res.bound("stiffness_vs_hessian_alt_declaration", float(onp.max(onp.abs(K2 - Huu))), TOL_H * scale,
+                                  {"bc": kind, "declaration": akind, "n_entries": len(aebcs), "factory": factory, "material": mname}, mech)
+                        res.count("declaration_metamorphic_checks")
+                        res.count("bc_decl:" + akind)
+            except _LibraryRaised:
+                pass
             res.count("stiffness_comparisons")
             res.count("symmetry_checks")
             res.count("bc:" + kind)
@@ -692,11 +843,13 @@ def run_case(case):
                     res.count("cmp:pp_axisym")
             if axisym:
                 res.count("cmp:axisymmetric")
-            if mname.startswith("j2"):
+            if mixed:
+                res.count("cmp:multi_mixed")
+            if has_j2:
                 res.count("cmp:j2")
                 if plastic_now:
                     res.count("cmp:j2_with_plastic_points")
-            if mname.startswith("visco"):
+            if has_visco:
                 res.count("cmp:visco")
             if case.get("low_quad"):
                 res.count("cmp:low_quad")
